@@ -2,6 +2,7 @@ import SszModel.Text
 import SszModel.Serde
 import SszModel.BitMachine
 import SszModel.Alloc
+import SszModel.DeriveText
 /-
   One request per line on stdin (tab separated), one answer per line on stdout.
 -/
@@ -82,6 +83,36 @@ def answer (fields : List String) : String :=
       resStr hexList r ++ " calls=" ++ hexList tr.calls ++ " hint=" ++
         (match tr.sizeHint with | some n => toString n | none => "-")
     | _, _, _ => "bad-request"
+  | ["accepts", d] =>
+    match parseDef d with
+    | some d => toString (accepts d)
+    | none => "bad-request"
+  | ["denc", d, val] =>
+    match parseDef d, valOfString val with
+    | some d, some v => toHex (genEncode d v)
+    | _, _ => "bad-request"
+  | ["ddec", d, hex] =>
+    match parseDef d, fromHex hex with
+    | some d, some b => resStr valStr (genDecode d b)
+    | _, _ => "bad-request"
+  | ["dmeta_enc", d] =>
+    match parseDef d with
+    | some d => metaStr (encSchema d)
+    | none => "bad-request"
+  | ["dmeta_dec", d] =>
+    match parseDef d with
+    | some d => metaStr (decSchema d)
+    | none => "bad-request"
+  | ["dspec", d, val] =>
+    match parseDef d, valOfString val with
+    | some (.struct_ (some .transparent) e fields), some (.tuple vs) =>
+        (match projectDe fields vs with
+         | [x] => toHex (Spec.ser (encSchema (.struct_ (some .transparent) e fields)) x)
+         | _ => "ill-typed")
+    | some (.struct_ b e fields), some (.tuple vs) =>
+        toHex (Spec.ser (encSchema (.struct_ b e fields)) (.tuple (projectSer fields vs)))
+    | some d, some v => toHex (Spec.ser (encSchema d) v)
+    | _, _ => "bad-request"
   | ["alloc", ty, hex] =>
     match tyOfString ty, fromHex hex with
     | some t, some b => toString (allocUnits t b)
